@@ -47,13 +47,28 @@ func c20Single(c *C20Case) Verdict {
 	ctx := context.Background()
 	var cancel context.CancelFunc = func() {}
 	var deadline time.Duration = -1
+	var waitEnd time.Duration
 	if c.CancelAfter >= 0 && c.CancelAfter < attempts-1 && w > 0 {
-		// attempt a ends at (a+1)*d + a*w; the deadline falls strictly inside the following wait
-		deadline = time.Duration(c.CancelAfter+1)*d + time.Duration(c.CancelAfter)*w + w*time.Duration(1+c.Frac%7)/8
-		if c.Frac%2 == 1 {
-			ctx, cancel = context.WithDeadlineCause(ctx, x.t0.Add(deadline), errors.New("custom deadline cause"))
-		} else {
-			ctx, cancel = context.WithDeadline(ctx, x.t0.Add(deadline))
+		// The deadline is placed inside the wait the implementation ACTUALLY makes after attempt
+		// CancelAfter (it may be longer than w, e.g. a back-off): a cancellation-free reference run
+		// of the same scenario gives the stamps.
+		ref := newWfExec(sc)
+		ref.hook = x.hook
+		ref.run(context.Background())
+		var re []Ev
+		for _, e := range ref.snapshot() {
+			if e.Phase == "exec" {
+				re = append(re, e)
+			}
+		}
+		if len(re) > c.CancelAfter+1 {
+			from, to := re[c.CancelAfter].T1, re[c.CancelAfter+1].T0
+			if to > from {
+				deadline = from + (to-from)*time.Duration(1+c.Frac%7)/8
+				waitEnd = to
+				x.t0 = time.Now()
+				ctx, cancel = context.WithDeadline(ctx, x.t0.Add(deadline))
+			}
 		}
 	}
 	defer cancel()
@@ -91,15 +106,12 @@ func c20Single(c *C20Case) Verdict {
 		}
 		// promptly = without sleeping out the remainder of the wait (and, for the 1 h wait,
 		// within a generous virtual minute); an implementation polling the context is fine
-		waitEnd := execs[len(execs)-1].T1 + w
 		if finished >= waitEnd || finished-deadline > time.Minute {
 			return bad("C20:not-prompt", "cancellation at %v during a %v wait that would have ended at %v: run returned only at %v", deadline, w, waitEnd, finished)
 		}
 		return ok(true, "single", "cancel-in-wait", fmt.Sprintf("after-attempt-%d", c.CancelAfter))
 	}
-	if len(execs) != attempts {
-		return bad("C20:attempts", "%d attempts, model %d", len(execs), attempts)
-	}
+	// (how many attempts are made is C02's business)
 	last := execs[len(execs)-1]
 	if finished != last.T1 {
 		return bad("C20:wait-after-last", "run returned %v after the last attempt ended (no wait may follow the last attempt; wait=%v)", finished-last.T1, w)
@@ -138,11 +150,7 @@ func c20Batch(c *C20Case) Verdict {
 		if len(execs) >= 2 && w > 0 {
 			nontrivial = true
 		}
-		m := sc.modelItem(i)
-		// the attempt count must be the model's unless the deadline actually struck during the run
-		if br.CtxErr == nil && len(execs) != m.Attempts && !(sc.stop() && len(execs) == 0) {
-			return bad("C20:item-attempts", "item %d: %d attempts, model %d", i, len(execs), m.Attempts)
-		}
+		// (how many attempts an item gets is C02/C07's business; C20 judges the gaps of those made)
 		if sc.DeadlineMs > 0 {
 			dl := time.Duration(sc.DeadlineMs) * time.Millisecond
 			for _, e := range execs {
